@@ -711,7 +711,11 @@ def make_set(eng, items, node):
     ds = [eng.deref(x) for x in items]
     if all(isinstance(x, VInt) and const_of(x.t) is not None for x in ds):
         return VSet(members=frozenset(const_of(x.t) for x in ds))
-    raise OutOfSubset(node, "set literal")
+    # a set of arbitrary values: characteristic array over Val (heap-allocated like set())
+    arr = z3.K(Val, z3.BoolVal(False))
+    for x in items:
+        arr = z3.Store(arr, to_val(eng, x), z3.BoolVal(True))
+    return eng.alloc(VSet(arr=arr))
 
 
 def make_dict(eng, pairs, node):
@@ -908,6 +912,11 @@ def opaque_iter_item(eng, it, node):
         eng.assume(z3.And(n >= 0, n <= itd.join.n))
         eng.byte_facts(arr)
         return seq_from_array(arr, n, "bytes")
+    if isinstance(itd, VSet) and itd.arr is not None and itd.arr.sort().domain() == Val:
+        # an element yielded by iterating a set is a member of that set at that moment
+        item = VOpaque(tag="item")
+        eng.assume(itd.arr[item.t])
+        return item
     return VOpaque(tag="item")
 
 
